@@ -295,6 +295,29 @@ func checkCtxFlow(P *Program, prop string) []StructResult {
 					continue
 				}
 				callee := call.Common().StaticCallee()
+				if callee != nil && fnKey(callee) != "engine.(*Promise).Force" && hasCtxParam(fn) {
+					// a function that was given a context hands *that* context on to whatever it calls with one (a callee
+					// that will Force under a detached context is as uncancellable as a detached Force)
+					key := fnKey(fn)
+					for ai, a := range call.Common().Args {
+						if !isCtxType(a.Type()) {
+							continue
+						}
+						count[key+"/arg"]++
+						name := fmt.Sprintf("%s:ctxflow-arg:%d", key, count[key+"/arg"])
+						if why, ok := exempt[key]; ok {
+							out = append(out, StructResult{Name: name, OK: true, Detail: "exempt: " + why})
+							continue
+						}
+						ok2, why := ctxDerived(a, map[ssa.Value]bool{}, 0)
+						res := StructResult{Name: name, OK: ok2, Detail: "the context passed on derives from the function's own context"}
+						if !ok2 {
+							res.Detail = fmt.Sprintf("argument %d of the call of %s is a context that is not derived from the caller's own context: %s (%s)", ai, fnKey(callee), why, posOf(fn, in.Pos()))
+						}
+						out = append(out, res)
+					}
+					continue
+				}
 				if callee == nil || fnKey(callee) != "engine.(*Promise).Force" {
 					continue
 				}
@@ -1354,4 +1377,70 @@ func checkFreshPerIteration(P *Program, prop string) []StructResult {
 		}
 	}
 	return out
+}
+
+// ---------------------------------------------------------------- calls a function must not make (C02)
+//   //@ func F / never-calls G
+// F contains no static call of G: e.g. VM.exec decides head arguments through Env.Unify only and never binds or looks
+// up variables itself.
+
+func init() { structuralChecks = append(structuralChecks, checkNeverCalls) }
+
+func checkNeverCalls(P *Program, prop string) []StructResult {
+	var out []StructResult
+	for _, key := range P.FuncOrd {
+		d := P.Funcs[key]
+		if !hasProp(d.Props(), prop) {
+			continue
+		}
+		for _, c := range d.Get("never-calls") {
+			target := strings.TrimSpace(c.Text)
+			res := StructResult{Name: key + ":never-calls:" + target, OK: true, Detail: "no call of " + target}
+			fn := P.fnByKey[key]
+			if fn == nil {
+				res.OK, res.Detail = false, "no such function"
+				out = append(out, res)
+				continue
+			}
+			var visit func(f *ssa.Function)
+			visit = func(f *ssa.Function) {
+				for _, b := range f.Blocks {
+					for _, in := range b.Instrs {
+						if ci, ok := in.(ssa.CallInstruction); ok {
+							if callee := ci.Common().StaticCallee(); callee != nil {
+								k := fnKey(callee)
+								if k == target || shortKey(k) == target || strings.HasSuffix(k, "."+target) {
+									res.OK = false
+									res.Detail = fmt.Sprintf("%s calls %s (%s)", fnKey(f), target, posOf(f, in.Pos()))
+								}
+							} else if target == "dynamic" && !ci.Common().IsInvoke() {
+								if _, isBuiltin := ci.Common().Value.(*ssa.Builtin); !isBuiltin {
+									res.OK = false
+									res.Detail = fmt.Sprintf("%s calls through a function value (%s)", fnKey(f), posOf(f, in.Pos()))
+								}
+							}
+						}
+					}
+				}
+				for _, an := range f.AnonFuncs {
+					visit(an)
+				}
+			}
+			visit(fn)
+			out = append(out, res)
+		}
+	}
+	return out
+}
+
+// hasCtxParam: the function, or a function it is nested in, has a context.Context parameter
+func hasCtxParam(fn *ssa.Function) bool {
+	for f := fn; f != nil; f = f.Parent() {
+		for _, p := range f.Params {
+			if isCtxType(p.Type()) {
+				return true
+			}
+		}
+	}
+	return false
 }
